@@ -145,7 +145,7 @@ def _drive(args):
                '_desc': '%d rows, %s, %s%s' % (n, enc, '1014' if blocked else 'vbs', ', via cli_run on real files' if via_cli else ''),
                '_raw': None}
         try:
-            with drv.Env('csv', tid, n, enc), drv.Watchdog(60.0), contextlib.redirect_stdout(io.StringIO()):
+            with drv.Env('csv', tid, n, enc), drv.Watchdog(60.0), (contextlib.nullcontext() if drv.THREADED else contextlib.redirect_stdout(io.StringIO())):
                 if via_cli:
                     p = os.path.join(wd, 'c20-%d-%d.csv' % (os.getpid(), tid))
                     drv.spit(p, text, 'w', newline='')
@@ -185,11 +185,11 @@ def _drive(args):
                         if os.path.exists(q):
                             os.unlink(q)
                 else:
-                    f = io.BytesIO()
+                    f = drv.new_file()
                     mci_csv_to_ipm.mci_csv_to_ipm(io.StringIO(text, newline=''), f, cfg, out_encoding=enc, no1014blocking=not blocked)
                     ipm = f.getvalue()
                     o = io.StringIO(newline='')
-                    mci_ipm_to_csv.mci_ipm_to_csv(io.BytesIO(ipm), o, cfg, in_encoding=enc, no1014blocking=not blocked)
+                    mci_ipm_to_csv.mci_ipm_to_csv(drv.new_file(ipm), o, cfg, in_encoding=enc, no1014blocking=not blocked)
                     outtext = o.getvalue()
             res['rout'] = [prow(x) for x in csv.DictReader(io.StringIO(outtext, newline=''))]
             if site_extra:
@@ -202,7 +202,7 @@ def _drive(args):
                 e['d'] = [{'k': isoc.pkey(k), 'v': isoc.pval(v)} for k, v in x.items() if v not in ('', None)]
                 ev.append(e)
             ev.append(ipmc.iev(1, 'csvend'))
-            if tid % 4 == 1 and enc in ('latin_1', 'cp500'):
+            if tid % 4 == 1 and enc in ('latin_1', 'cp500') and not drv.THREADED:
                 # the legacy extractor (mideu extract) on the same IPM file: its CSV is judged by the same clause
                 from cardutil.cli import mideu
                 q = os.path.join(wd, 'c20m-%d-%d.ipm' % (os.getpid(), tid))
@@ -237,6 +237,13 @@ def run(rep, wd, tier, seed):
                         'dateutil/fromisoformat parse YYYY-MM-DD hh:mm:ss as the specification\'s IsoDt']
     n = 420 if tier == 'thorough' else 60
     outs = isocheck._pool(_drive, [(seed, wd, p) for p in core.split(list(range(n)), core.NCPU)])
+    # four threads at once, each converting its own table (function entry points: ids that are not multiples of 5)
+    tids = [t for t in range(1001, 1001 + 60) if t % 5][:40]
+    touts = isocheck.threaded('harness.c20', '_drive', [(seed, wd, tids[k::8]) for k in range(8)], procs=2)
+    for o in touts:
+        for x in o:
+            x['_desc'] += ' [4 threads at once, each on its own objects]'
+    outs = outs + touts
     results = [x for o in outs for x in o]
     traces = []
     groups = {}
